@@ -62,6 +62,13 @@ def stepEv (d : DSt) (e : Ev String) (rule : String) : DSt × String :=
   | some s => ok d s
   | none => rej d rule
 
+/-- the in-memory dbRound is observed (`tbegin a`, `reload d …`): if the model still waits for postCommit of a committed
+transaction whose round is the observed one, postCommit has happened (the harness logs `tdone` only at its own stops) -/
+def settlePost (s : Sys String) (observed : Nat) : Sys String :=
+  match s.phase with
+  | .committed n => if n = observed then (step s .commitPost).getD s else s
+  | _ => s
+
 def handleEv (d : DSt) : List String → DSt × String
   | ["put", r, h] =>
     match r.toNat? with
@@ -98,9 +105,10 @@ def handleEv (d : DSt) : List String → DSt × String
   | ["tbegin", a] =>
     match a.toNat? with
     | some a =>
+      let s := settlePost d.sys a
       if d.tOpen then rej d "nested-tracker-txn"
-      else if a ≠ d.sys.dbRound then rej d "dbRound-mismatch"
-      else ({ d with tOpen := true, tRound := false, n := d.n + 1 }, "ok")
+      else if a ≠ s.dbRound then rej d "dbRound-mismatch"
+      else ({ d with sys := s, tOpen := true, tRound := false, n := d.n + 1 }, "ok")
     | none => rej d "parse"
   | ["tround", n] =>
     match n.toNat? with
@@ -147,9 +155,10 @@ def handleEv (d : DSt) : List String → DSt × String
     match x.toNat?, lc.toNat? with
     | some x, some lc =>
       -- transactions of the open itself (replay flush) are logged before this line; they were judged as ordinary commits
-      match d.sys.work, d.sys.phase, d.sys.q with
+      let s0 := settlePost d.sys x
+      match s0.work, s0.phase, s0.q with
       | none, .idle, [] =>
-        match step d.sys .crash with
+        match step s0 .crash with
         | some s => if s.dbRound = x ∧ s.lastCommitted = lc then ok d s else rej d "reload-rounds"
         | none => rej d "reload"
       | _, _, _ => rej d "reload-while-busy"
